@@ -11,7 +11,7 @@ Driver handler for the namespace/include model: `ns <fn> <args…>`.
 * `ns adjust <uri> <rel|none>` – `adjust_uri`.
 
 Grammar (tokens separated by blanks; strings in the wire encoding):
-  SET := n (uri TEMPLATE)* n dir* n (path TEMPLATE)* n (name n (member kind tag)*)*
+  SET := n (uri TEMPLATE)* n dir* n (path TEMPLATE)* n (name n (member kind tag)*)* strict_undefined include_error_handler
   TEMPLATE := n (arg (none|default))* (none|inherit) n NSTAG* n (name isblock ITEMS)* ITEMS
   NSTAG := name (f uri|m module|p) inheritable (none|n name*) n (name ITEMS)*
   ITEMS := n ITEM*     ARGS := n (key value)*     RECV := self|local|parent|next|ns name
@@ -160,7 +160,9 @@ def pSet : P TSet := do
     let t ← pTemplate
     pure (u, t)
   let mods ← pList pMod
-  pure ⟨coll, dirs, files, mods⟩
+  let strict ← pBool
+  let ieh ← pBool
+  pure ⟨coll, dirs, files, mods, strict, ieh⟩
 
 def pVal : P Val := do
   let k ← tok
@@ -238,7 +240,7 @@ def buildChain (levels : List Level) : TSet × St :=
       l.inline.map (fun d => (d, (⟨levelUri i, .inline "n".toList d⟩ : CodeRef), i)),
       if i + 1 < levels.length then some (i + 1) else none, i⟩ : NsObj)
   let ctxs := idx.map fun i => (⟨[], some 0, some i, none, none⟩ : Ctx)
-  (⟨coll, [], [], mods⟩, ⟨ctxs, nss, [], [], [], []⟩)
+  (⟨coll, [], [], mods, false, false⟩, ⟨ctxs, nss, [], [], [], []⟩)
 
 def encValue : Value → String
   | .code r _ =>
